@@ -31,4 +31,9 @@ def run(path, tlimit=None):
 
 
 if __name__ == "__main__":
+    # hard stop: cvc5's own tlimit is not always honoured inside the string solver, and a driver that is killed leaves this
+    # process orphaned (five such processes were found burning a core each for ten hours) - SIGALRM's default action ends it
+    import signal
+    if len(sys.argv) > 2:
+        signal.alarm(int(int(sys.argv[2]) / 1000) + 15)
     run(sys.argv[1], sys.argv[2] if len(sys.argv) > 2 else None)
